@@ -357,6 +357,13 @@ def check_C07(ctx):
         g = gen.gen_grammar(ctx.rng, max_nts=5)
         kinds_inj = gen.inject_violations(ctx.rng, g)
         cases.append(('injected:' + ','.join(kinds_inj), gen.layout(ctx.rng, gen.render_tokens(g), ctx.rng.choice(['plain', 'random']))))
+    # syntax-level malformations: token-level mutations of valid files (very long tokens included)
+    for _ in range(ctx.n(150, 6000)):
+        g = gen.gen_grammar(ctx.rng, max_nts=4)
+        items = gen.render_tokens(g)
+        for _ in range(ctx.rng.randint(1, 2)):
+            items = gen.mutate_token_items(ctx.rng, items)
+        cases.append(('token-mutated', gen.layout(ctx.rng, items, ctx.rng.choice(['plain', 'random']))))
     srcs = [s for _, s in cases]
     r, m = run_gen_both(ctx, srcs)
     kinds = {}
@@ -471,6 +478,16 @@ def check_C09(ctx):
         body = gen.layout(ctx.rng, list(items[:k]) + ([part] if part else []), ctx.rng.choice(['plain', 'random']))
         tail = ctx.rng.choice(tails) if ctx.rng.random() < 0.8 else '// ' + gen.tricky_text(ctx.rng, 1, 6)
         cases.append(('truncated+tail', body.rstrip('\n') + (' ' if tail.startswith('//') else '') + tail))
+    # the offending token is the last thing in the file: nothing at all after it
+    for _ in range(ctx.n(60, 2000)):
+        g = gen.gen_grammar(ctx.rng, max_nts=3)
+        items = gen.render_tokens(g)
+        flat = [t for it in items for t in it if t != '\n']
+        k = ctx.rng.randint(1, len(flat))
+        extra = ctx.rng.choice(['}', ')', '>', ',', ':', '::', '$Zz', 'Zz', '_', 'start', 'struct', 'enum', 'terminal', '{', '(', '<', '#[zz]'])
+        body = gen.layout(ctx.rng, [flat[:k] + [extra]], ctx.rng.choice(['plain', 'random'])).rstrip()
+        if body.endswith(extra):
+            cases.append(('last-token-at-eof', body))
     # syntax errors far from the start: spans beyond 16 bits
     for _ in range(ctx.n(6, 120)):
         g = gen.gen_grammar(ctx.rng, max_nts=3)
@@ -632,6 +649,8 @@ def check_C16(ctx):
             items = gen.mutate_token_items(ctx.rng, items)
         a = gen.layout(ctx.rng, items, ctx.rng.choice(['plain', 'random', 'dense']))
         b = gen.layout(ctx.rng, items, ctx.rng.choice(['random', 'random', 'dense']))
+        if ctx.rng.random() < 0.2 and not a.rstrip().endswith(('// trailing comment without newline',)) and '//' not in a.rstrip().split('\n')[-1]:
+            a = a.rstrip()          # nothing at all after the last token (the other layout has a line break or a comment there)
         pairs.append((a, b))
     for _, s in corpus_sources():
         toks = oracles.lex_spec(s)
@@ -724,7 +743,7 @@ def check_C12(ctx):
                 'emitted text), and equal the model; non-trivial = >=1 attribute; distinct by text')
     attrs = ['#[derive(Debug)]', '#[derive(Clone, Debug, PartialEq)]', '#[allow(unused)]', '#[doc = "é€\U0001F600"]', '#[doc = "a [b] {c} (d)"]',
              '#[cfg_attr(all(), allow(dead_code))]', '#[x(y[z{w}])]', '#[doc="  spaced   "]', '#[€]', '#[a]', '#[doc = "pub struct Fake;"]',
-             '#[doc = "// not a comment"]', '#[doc = "\t tab"]', '#[ß(ü)]']
+             '#[doc = "// not a comment"]', '#[doc = "\t tab"]', '#[ß(ü)]', '#[]', '#[ ]', '#[doc = "half-open (lo, hi] and 1) item"]'.replace('(lo, hi] and 1) item', '[lo, hi] and (1) item')]
     def tricky_attr():
         # balanced by construction: bracket pairs of the three kinds, nested, with tricky code points (same low byte as a
         # bracket, quote, `#`, newline; UTF-8 length boundaries) between them
@@ -746,6 +765,7 @@ def check_C12(ctx):
         for nt in g.nts:
             nt['attrs'] = [pick_attr() for _ in range(ctx.rng.choice([0, 0, 1, 1, 2, 3, 4]))]
         g.tenum_attrs = [pick_attr() for _ in range(ctx.rng.choice([0, 1, 2, 3]))]
+        gen.relate_adjacent_attrs(ctx.rng, g)
         cases.append(gen.render(ctx.rng, g, ctx.rng.choice(['plain', 'random'])))
         meta.append(g)
     r, m = run_gen_both(ctx, cases)
